@@ -640,9 +640,9 @@ def monitor_records(ctx: fw.Ctx, net: Net) -> None:
         cur = dict(astatus_of(c['current_status']))
         seen = dict(astatus_of(c['seen_status']))
         for ident in c['ids']:
-            ctx.count('net_clean', 'expired-record')
+            ctx.count('net_clean', 'records-removed')
             if ident in cur and is_live(cur[ident], c['at_ms']):
-                ctx.count('net_clean', 'LIVE-record')
+                ctx.count('net_clean', 'of-which-LIVE-in-the-object')
                 stale = c['seen_version'] < c['current_version'] and ident in seen and not is_live(seen[ident], c['at_ms']) \
                     and seen[ident] != cur[ident]
                 ctx.fail('a record that is not expired was removed from the peering object by another operator',
@@ -783,3 +783,138 @@ def overlapping(sc: dict) -> int:
             up.discard(a['op'])
         best = max(best, len(up))
     return best
+
+
+# ------------------------------------------------------------------------------------------
+# whole operators: 2-3 real kopf.operator() incarnations sharing one ClusterKopfPeering in the fake API
+# (kv.sim / kv.fakeapi).  Monitors only (the property text on handler calls, daemons, the peering object).
+# ------------------------------------------------------------------------------------------
+
+def gen_world_scenario(r: _random.Random, idx: int) -> dict:
+    nops = r.choice([2, 2, 3])
+    names = ['A', 'B', 'C'][:nops]
+    prios = r.sample([0, 10, 50, 100], nops)
+    if r.random() < 0.15:
+        prios[1] = prios[0]
+    life = r.choice([12, 20, 30])
+    steps: list[dict] = []
+    up: set[str] = set()
+    nobj = 0
+    for _ in range(r.choice([4, 6, 9])):
+        k = r.random()
+        down = [n for n in names if n not in up]
+        if down and (k < 0.35 or not up):
+            n = r.choice(down)
+            up.add(n)
+            steps.append({'do': 'start', 'op': n})
+        elif up and k < 0.5:
+            n = r.choice(sorted(up))
+            up.discard(n)
+            steps.append({'do': r.choice(['kill', 'stop']), 'op': n})
+        else:
+            nobj += 1
+            steps.append({'do': 'create', 'name': f'o{nobj}'})
+        steps.append({'do': 'run', 'for': r.choice([2, 5, life + 3, 2 * life + 5])})
+    return {'idx': idx, 'ops': dict(zip(names, prios)), 'life': life, 'steps': steps}
+
+
+def run_world(ctx: fw.Ctx, sc: dict) -> None:
+    from kv import fakeapi, sim
+    W = sim.World(kinds=[fakeapi.KOPFEXAMPLE, fakeapi.CLUSTERKOPFPEERING, fakeapi.NAMESPACE, fakeapi.CRD])
+    try:
+        api = W.api
+        api.create(fakeapi.CLUSTERKOPFPEERING, None, 'default', {})
+        handlers = [{'id': 'on_create', 'kind': 'create'}, {'id': 'dmn', 'kind': 'daemon', 'temper': 'obeys'}]
+        incs: dict[str, Any] = {}
+        gen: dict[str, int] = {}
+        prio_of: dict[str, int] = {}          # incarnation name -> priority
+        created: dict[str, float] = {}
+
+        def conf(prio: int) -> Any:
+            def f(s: Any) -> None:
+                s.peering.priority = prio
+                s.peering.lifetime = sc['life']
+            return f
+
+        for st in sc['steps']:
+            if st['do'] == 'start':
+                gen[st['op']] = gen.get(st['op'], 0) + 1
+                name = f"{st['op']}{gen[st['op']]}"
+                prio_of[name] = sc['ops'][st['op']]
+                incs[st['op']] = W.operator(name, handlers, configure=conf(sc['ops'][st['op']]),
+                                            peering={'peering_name': 'default', 'clusterwide': True}).start()
+            elif st['do'] == 'kill':
+                incs.pop(st['op']).kill()
+            elif st['do'] == 'stop':
+                inc = incs.pop(st['op'])
+                inc.stop()
+                inc.wait_exit(60)
+            elif st['do'] == 'create':
+                api.create(fakeapi.KOPFEXAMPLE, 'default', st['name'], {'spec': {'x': 1}})
+                created[st['name']] = W.now
+            else:
+                W.run_for(st['for'])
+            ctx.count('world_steps', st['do'])
+        W.run_for(2 * sc['life'] + 15)          # every killed record has expired, every takeover has happened
+        running = {n: i for n, i in incs.items() if i.state == 'running'}
+        # ---- the property on what happened
+        data = {'scenario': sc}
+        calls = [c for c in W.calls if c['handler'] == 'on_create']
+        per_obj: dict[str, list] = {}
+        for c in calls:
+            per_obj.setdefault(c['name'], []).append((c['inc'], c['t']))
+        for name, cs in per_obj.items():
+            if len(cs) > 1:
+                ctx.fail('a creation handler was executed more than once across pause / take-over', {**data, 'object': name},
+                         observed=cs, sig='world-double-execution')
+        prios = sorted((sc['ops'][n] for n in running), reverse=True)
+        unique_top = bool(prios) and (len(prios) == 1 or prios[0] > prios[1])
+        status = (api.get(fakeapi.CLUSTERKOPFPEERING, None, 'default') or {}).get('status', {})
+        if unique_top:
+            ctx.nontriv(['world', sc['idx']]) if len(prio_of) >= 2 else None
+            top = max(running, key=lambda n: sc['ops'][n])
+            for name in created:
+                if name not in per_obj:
+                    ctx.fail('an object was never handled although a unique top-priority operator is running', {**data, 'object': name},
+                             observed={'status': status}, sig='world-not-handled')
+            # daemons at the end: exactly one live instance per object, owned by the top operator
+            for name in created:
+                live = [c['inc'] for c in W.calls if c['handler'] == 'dmn' and c['name'] == name and c['ended'] is None
+                        and not c.get('aborted')]
+                if live != [running[top].name]:
+                    ctx.fail('daemons are not running exactly in the one active operator', {**data, 'object': name},
+                             observed=live, expected=[running[top].name], sig='world-daemons-wrong')
+        # handled only by an operator that was not outranked by a peer registered long enough before
+        starts: dict[str, float] = {}
+        for c in W.calls:
+            starts.setdefault(c['inc'], c['t'])
+        # records of stopped (graceful) operators are gone, of everyone not running are gone or expired by now
+        import iso8601
+        now_ms = ms(W.now)
+        live_ids = []
+        for ident, rec in status.items():
+            seen = (iso8601.parse_date(rec['lastseen']) - clock.EPOCH) // dt.timedelta(milliseconds=1)
+            if seen + rec.get('lifetime', 60) * 1000 > now_ms:
+                live_ids.append(ident)
+        if len(live_ids) != len(running):
+            ctx.fail('live peering records do not match the running operators long after the last exit/kill', data,
+                     observed={'status': status, 'running': sorted(running)}, sig='world-records-wrong')
+        ctx.count('world_end', 'unique-top' if unique_top else 'conflict-or-nobody')
+    finally:
+        W.close()
+
+
+def run_worlds(ctx: fw.Ctx, n: int) -> None:
+    try:
+        from kv import fakeapi, sim  # noqa: F401
+    except Exception as e:        # the whole-operator simulation is shared infrastructure
+        ctx.notes.append(f'whole-operator scenarios skipped: {e!r}')
+        return
+    import warnings
+    r = ctx.rng
+    for i in range(n):
+        sc = gen_world_scenario(r, i)
+        with warnings.catch_warnings():
+            warnings.simplefilter('ignore')
+            run_world(ctx, sc)
+        ctx.count('world_scenarios', 'run')
